@@ -10,13 +10,13 @@ from sx.runner import Harness
 ID = "C08"
 MANIFEST = {
     "technique": "bounded model checking with solver-decided choice (SX engine): the presence of each (category, package, version) cell of one or two in-memory repositories, the leaf restrictions (atom, category/package exact/glob/regex/containment matchers with negation on value and wrapper), the boolean shape combining up to three leaves (And/Or/nested, negated nodes) and the query mode (versioned/unversioned, sorted, stacked) are symbolic selectors; the engine forks over every feasible combination, runs the real itermatch (with _identify_candidates/_fast_identify_candidates/_cat_filter/_package_filter pruning) and compares with a brute-force filter of all packages by restrict.match",
-    "level_text": "Bounded model checking, exhaustive within the bound: all 2^8 contents of a 2x2x2 repository (quick: 2^6) x 21 leaf restrictions x 9 boolean shapes x 4 query modes: itermatch yields every package the restriction matches, nothing else, each exactly once; unversioned queries yield exactly the matching category/package pairs; sorted queries are in sorter order; a stack of two repositories yields the union. Selector-dominated: the solver enumerates repository contents and restriction shapes.",
+    "level_text": "Bounded model checking, exhaustive within the bound: 2^6 contents of a 2x2x2 repository (6 free presence bits, the other two tied to them; quick: 4 free bits) x 21 leaf restrictions x 9 boolean shapes x 4 query modes: itermatch yields every package the restriction matches, nothing else, each exactly once; unversioned queries yield exactly the matching category/package pairs; sorted queries are in sorter order; a stack of two repositories yields the union. Selector-dominated: the solver enumerates repository contents and restriction shapes.",
     "level_note": "selector-only harness (labelled as such). The oracle is restrict.match itself applied to every package (C04/C06 cover match); what is checked here is the candidate pruning.",
 }
 META = {
     "modules": ["pkgcore.repository.prototype", "pkgcore.repository.multiplex", "pkgcore.repository.util", "pkgcore.restrictions.util"],
     "functions": ["prototype.tree.itermatch/_internal_match/_identify_candidates/_fast_identify_candidates/_cat_filter/_package_filter", "multiplex.tree.itermatch", "util.SimpleTree"],
-    "bounds": {"quick": "repository cells: 2 categories x 2 packages x {1,2} versions with 6 symbolic presence bits; 21 leaves; 9 shapes over <=3 leaves (2 symbolic leaf choices per obligation); modes versioned/unversioned/sorted/stacked", "thorough": "8 presence bits, 3 symbolic leaf choices"},
+    "bounds": {"quick": "repository cells: 2 categories x 2 packages x {1,2} versions with 4 symbolic presence bits (the others tied to them); 21 leaves; 9 shapes over <=3 leaves (leaf a per obligation, leaf b symbolic, leaf c = a); modes versioned/unversioned/sorted/stacked", "thorough": "6 presence bits, leaf c symbolic over every third leaf"},
     "outside": ["repositories with more than 2 categories / 2 packages", "filtered.tree and caching_repo (C07/C13)", "restrictions on attributes other than category/package/version"],
     "assumptions": [],
     "selector_only": True,
@@ -62,7 +62,7 @@ class QueryHarness(Harness):
         L = len(leaves())
         inp = {"cells": [eng.bool(f"cell{i}") for i in range(ob["ncells"])], "b": eng.int("leaf_b", 0, L - 1)}
         if ob["symc"]:
-            inp["c"] = eng.int("leaf_c", 0, L - 1)
+            inp["c"] = eng.int("leaf_c", 0, (L - 1) // 3)
         return inp
 
     def body(self, inp):
@@ -85,14 +85,15 @@ class QueryHarness(Harness):
             repo = r1
         a = LV[ob["a"]][1]()
         b = LV[c["b"]][1]()
-        cc = LV[c.get("c", ob["a"])][1]()
+        ci = c["c"] * 3 if "c" in c else ob["a"]
+        cc = LV[ci][1]()
         try:
             restrict = build(ob["shape"], a, b, cc)
         except Exception as e:
             return {"skip": "cannot build: " + type(e).__name__}
         allpk = [p for r in repos for p in r]
-        out = {"restrict": "%s[%s,%s,%s]" % (ob["shape"], LV[ob["a"]][0], LV[c["b"]][0], LV[c.get("c", ob["a"])][0]), "repo": [d1, d2]}
-        used = [LV[ob["a"]][0]] + ([LV[c["b"]][0]] if "b" in ob["shape"] else []) + ([LV[c.get("c", ob["a"])][0]] if "c" in ob["shape"] else [])
+        out = {"restrict": "%s[%s,%s,%s]" % (ob["shape"], LV[ob["a"]][0], LV[c["b"]][0], LV[ci][0]), "repo": [d1, d2]}
+        used = [LV[ob["a"]][0]] + ([LV[c["b"]][0]] if "b" in ob["shape"] else []) + ([LV[ci][0]] if "c" in ob["shape"] else [])
         if "wrapper-negated-leaf-in-boolean" in self.active and ob["shape"] != "a" and any(u.startswith("not(") for u in used):
             return {"skip": "known finding region"}
         try:
@@ -138,6 +139,6 @@ def obligations(tier, seed):
                 if tier == "quick" and mode in ("sorted", "stacked") and a % 3:
                     continue
                 symc = shape.count("c") > 0 and tier != "quick"
-                obs.append({"oid": f"{shape}|{mode}|a={leaves()[a][0]}", "shape": shape, "mode": mode, "a": a, "symc": symc, "ncells": 4 if tier == "quick" else 8, "max_paths": 3000000, "max_s": 2400})
+                obs.append({"oid": f"{shape}|{mode}|a={leaves()[a][0]}", "shape": shape, "mode": mode, "a": a, "symc": symc, "ncells": 4 if tier == "quick" else 6, "max_paths": 3000000, "max_s": 2400})
     UNIVERSE[tier] = {"obligations": len(obs)}
     return obs
